@@ -3,6 +3,8 @@
 package system
 
 import (
+	"time"
+	"sync"
 	"errors"
 	"math/big"
 	"net"
@@ -75,6 +77,11 @@ func (m vfAbMsg) build(index int) rtnetlink.Message {
 
 var vfErrExecute = errors.New("verif: netlink request failed")
 
+// vfAbOverlap: the next vfAbRun makes its (succeeding) call WHILE ANOTHER call for the same interface
+// is inside its own netlink request — which then fails.  Every call's answer is its own: a list from
+// its own successful dump, never the outcome of somebody else's request.
+var vfAbOverlap bool
+
 func vfAbRun(out *vfh.Out, k int, failed bool, ms []vfAbMsg) {
 	index := 1 + k%9
 	c := new(vfh.Toks).S("ab").B(failed).N(len(ms))
@@ -96,7 +103,29 @@ func vfAbRun(out *vfh.Out, k int, failed bool, ms []vfAbMsg) {
 		msgs = append(msgs, m.build(index))
 	}
 	reqOK := false
-	a := &addresser{execute: func(m rtnetlink.Message, family uint16, flags netlink.HeaderFlags) ([]rtnetlink.Message, error) {
+	overlap := vfAbOverlap && !failed
+	vfAbOverlap = false
+	var a *addresser
+	var first sync.Once
+	var resume, entered chan struct{}
+	if overlap {
+		resume, entered = make(chan struct{}), make(chan struct{})
+	}
+	a = &addresser{execute: func(m rtnetlink.Message, family uint16, flags netlink.HeaderFlags) ([]rtnetlink.Message, error) {
+		if overlap {
+			leader := false
+			first.Do(func() { leader = true })
+			if leader {
+				// the other caller's request: in flight until the call under observation is over
+				// (or, if that call waits for this one, for a moment), then it fails
+				close(entered)
+				select {
+				case <-resume:
+				case <-time.After(300 * time.Millisecond):
+				}
+				return nil, vfErrExecute
+			}
+		}
 		am, ok := m.(*rtnetlink.AddressMessage)
 		reqOK = ok && am.Family == unix.AF_INET6 && am.Index == uint32(index) && am.Attributes == nil &&
 			am.PrefixLength == 0 && am.Flags == 0 && am.Scope == 0 &&
@@ -112,6 +141,11 @@ func vfAbRun(out *vfh.Out, k int, failed bool, ms []vfAbMsg) {
 				s = "panic"
 			}
 		}()
+		if overlap {
+			go func() { _, _ = a.AddressesByIndex(index) }()
+			<-entered
+			defer close(resume)
+		}
 		ips, err := a.AddressesByIndex(index)
 		if err != nil && !errors.Is(err, vfErrExecute) {
 			return "foreign-error"
@@ -224,6 +258,11 @@ func verifAddresserAddrs(t *testing.T, r *vfh.Rand, out *vfh.Out) {
 	vfAbRun(out, k+2, true, []vfAbMsg{{isAddr: true, family: unix.AF_INET6, hasAttrs: true, ip: pool[0], plen: 64}})
 	vfAbRun(out, k+3, true, []vfAbMsg{{isAddr: false}}) // a failing request never inspects the messages
 	k += 4
+	// a call overlapping another caller's failing request for the same interface
+	for j := 0; j < 3; j++ {
+		vfAbOverlap = true
+		vfAbRun(out, k, false, []vfAbMsg{{isAddr: true, family: unix.AF_INET6, hasAttrs: true, ip: pool[j], plen: 64}, {isAddr: true, family: unix.AF_INET6, hasAttrs: true, ip: pool[j+1], plen: 64}})
+	}
 	// every combination of the five decoded bits x noise x the valid-lifetime boundary
 	for f := 0; f < 32; f++ {
 		var w uint32
